@@ -212,6 +212,13 @@ def check_instance(payload, K, st: Stats, doc_skip=False, collect=None):
         if collect is not None:
             collect.append((label, d, r, time.time() - tq))
         if r == "sat":
+            # prefer a witness with small dyadic parameter values: it survives the float arithmetic of
+            # the concrete replay (an arbitrary rational model can differ by less than the tolerance)
+            s.push()
+            s.add([z3.Or([v == z3.RealVal(x) for x in ("1/2", "1", "2", "3", "4", "8")]) for n_, v in tr.env.items() if not n_.startswith("n") and z3.is_real(v)])
+            if z3_check(s, st, 60000) == "sat":
+                m = s.model()
+            s.pop()
             trips = {i: int(model_value(m, v)) for i, v in nvar.items()}
             costs = {n: model_value(m, v) for n, v in tr.env.items() if not n.startswith("n")}
             viol.append(("count", d, trips, costs))
@@ -241,20 +248,9 @@ def check_instance(payload, K, st: Stats, doc_skip=False, collect=None):
 
 
 def split_check(s, vs, K, st):
-    import itertools
-    st.extra["case_splits"] = st.extra.get("case_splits", 0) + 1
-    verdict = "unsat"
-    for vals in itertools.product(range(1, K + 1), repeat=len(vs)):
-        s.push()
-        s.add([v == x for v, x in zip(vs, vals)])
-        r = z3_check(s, st, 120000)
-        m = s.model() if r == "sat" else None
-        s.pop()
-        if r == "sat":
-            return "sat", m
-        if r != "unsat":
-            verdict = "unknown"
-    return verdict, None
+    from lib.common import split_check as _sc
+    r, fix, m = _sc(s, vs, 1, K, st, 120000)
+    return r, m
 
 
 # ---------------------------------------------------------------------------------------------------------
@@ -385,7 +381,7 @@ def replay(payload, kind, d, trips, costs, st):
         st.replays += 1
         if bad:
             return violation_record(payload, tv, fc, bad, bounds, d)
-    raise HarnessError(f"solver model does not reproduce on the real code: {M.sk_str(sk)} {d} trips={trips}")
+    raise HarnessError(f"solver model does not reproduce on the real code: {M.sk_str(sk)} {d} trips={trips} values={fc}")
 
 
 def validate_concrete(payload, K, st, rng):
